@@ -378,6 +378,70 @@ func C10(r *h.Run) {
 			}
 		}
 	}
+	// a deadline imposed by a client INTERCEPTOR (the interceptor hands a context with a shorter
+	// deadline down the chain): it is the call's deadline, for streaming calls as for unary ones
+	for _, proto := range []string{"connect", "grpc", "grpcweb"} {
+		for _, kind := range []string{"unary", "client", "server", "bidi"} {
+			for _, callerHasDeadline := range []bool{false, true} {
+				hname := "Connect-Timeout-Ms"
+				var opts []connect.ClientOption
+				if proto == "grpc" {
+					opts, hname = append(opts, connect.WithGRPC()), "Grpc-Timeout"
+				} else if proto == "grpcweb" {
+					opts, hname = append(opts, connect.WithGRPCWeb()), "Grpc-Timeout"
+				}
+				opts = append(opts, connect.WithInterceptors(deadlineIcpt{2 * time.Second}))
+				var vals []string
+				doer := roundTripFunc(func(req *http.Request) (*http.Response, error) {
+					vals = append([]string(nil), req.Header.Values(hname)...)
+					return nil, fmt.Errorf("verif: stop here")
+				})
+				client := connect.NewClient[wrapperspb.BytesValue, wrapperspb.BytesValue](doer, "http://verif.invalid/verif.Svc/Do", opts...)
+				ctx, cancel := context.Background(), context.CancelFunc(func() {})
+				if callerHasDeadline {
+					ctx, cancel = context.WithTimeout(ctx, time.Hour)
+				}
+				switch kind {
+				case "unary":
+					_, _ = client.CallUnary(ctx, connect.NewRequest(&wrapperspb.BytesValue{}))
+				case "client":
+					st := client.CallClientStream(ctx)
+					_ = st.Send(&wrapperspb.BytesValue{})
+					_, _ = st.CloseAndReceive()
+				case "server":
+					st, err := client.CallServerStream(ctx, connect.NewRequest(&wrapperspb.BytesValue{}))
+					if err == nil {
+						_ = st.Close()
+					}
+				default:
+					st := client.CallBidiStream(ctx)
+					_ = st.Send(&wrapperspb.BytesValue{})
+					_ = st.CloseRequest()
+					_, _ = st.Receive()
+					_ = st.CloseResponse()
+				}
+				cancel()
+				in := map[string]any{"proto": proto, "kind": kind, "interceptor_deadline": "2s", "caller_deadline": map[bool]string{false: "none", true: "1h"}[callerHasDeadline]}
+				r.Eval("client_interceptor_deadline", fmt.Sprint(proto, kind, callerHasDeadline))
+				r.Sample("client_interceptor_deadline", map[string]any{"in": in, "timeout_header": vals})
+				var sent time.Duration
+				ok := len(vals) == 1
+				if ok {
+					if hname == "Connect-Timeout-Ms" {
+						n, err := strconv.ParseInt(vals[0], 10, 64)
+						sent, ok = time.Duration(n)*time.Millisecond, err == nil
+					} else if len(vals[0]) >= 2 {
+						n, err := strconv.ParseInt(vals[0][:len(vals[0])-1], 10, 64)
+						usz, uok := unitSize(vals[0][len(vals[0])-1])
+						sent, ok = time.Duration(n*usz), err == nil && uok
+					}
+				}
+				if !ok || sent > 2*time.Second+5*time.Millisecond || sent < 1500*time.Millisecond {
+					r.Fail(h.Failure{Key: proto + "-client/interceptor-deadline-not-announced", Family: "client_interceptor_deadline", What: "the deadline a client interceptor put on the call's context is not what the request announces", Input: in, Expected: "about 2s", Actual: vals})
+				}
+			}
+		}
+	}
 	clientCase := func(proto string, d time.Duration) {
 		var cap capture
 		var deadline time.Time
@@ -663,4 +727,25 @@ func C10(r *h.Run) {
 		b[nd] = "nuSMHmhx"[hr.Intn(8)]
 		handlerCase("grpc", string(b), true)
 	}
+}
+
+// deadlineIcpt hands a context with a deadline of its own down the chain.
+type deadlineIcpt struct{ d time.Duration }
+
+func (i deadlineIcpt) WrapUnary(next connect.UnaryFunc) connect.UnaryFunc {
+	return func(ctx context.Context, req connect.AnyRequest) (connect.AnyResponse, error) {
+		ctx, cancel := context.WithTimeout(ctx, i.d)
+		defer cancel()
+		return next(ctx, req)
+	}
+}
+func (i deadlineIcpt) WrapStreamingClient(next connect.StreamingClientFunc) connect.StreamingClientFunc {
+	return func(ctx context.Context, spec connect.Spec) connect.StreamingClientConn {
+		ctx, cancel := context.WithTimeout(ctx, i.d)
+		_ = cancel // released when the deadline passes
+		return next(ctx, spec)
+	}
+}
+func (i deadlineIcpt) WrapStreamingHandler(next connect.StreamingHandlerFunc) connect.StreamingHandlerFunc {
+	return next
 }
